@@ -150,6 +150,11 @@ inductive Expr
   | unknown
   /-- Python `None` where a node is optional (dict key of `**m`) -/
   | absent
+  /-- a node that carries no `parent` link when the colourizer reaches it: the root of a sub-tree
+  that `astutils.unstring_annotation` parsed out of a string literal and spliced in (nobody re-runs
+  `Parentage` below the original, still linked, annotation root).  `_colorize_ast` then links the
+  sub-tree itself, with `parent = None` at this node, so `_OperatorDelimiter` treats it as top level. -/
+  | unlinked (e : Expr)
   deriving Repr, Inhabited
 
 /-! ## astor's code generator on the modelled fragment
@@ -606,6 +611,7 @@ def compile (T : PrecTable) (pp : Option Nat) : Expr → Prog
     | none => .unknown
   | .opaque t => .out t .plain
   | .unknown => .unknown
+  | .unlinked e => compile T none e
 def compileList (T : PrecTable) (pp : Option Nat) : List Expr → List Prog
   | [] => []
   | x :: xs => compile T pp x :: compileList T pp xs
